@@ -25,10 +25,15 @@ def _fn(tree, name):
     raise Unsupported("function %s not found" % name)
 
 
-def _args(fn, names):
+def _args(fn, n):
+    """the callbacks are called positionally: parameter names do not matter, their number does"""
     a = fn.args
-    if [x.arg for x in a.args] != names or a.vararg or a.kwarg or a.kwonlyargs or a.defaults or a.posonlyargs:
+    if len(a.args) != n or a.vararg or a.kwarg or a.kwonlyargs or a.defaults or a.posonlyargs:
         raise Unsupported("%s: unexpected signature" % fn.name)
+    names = [x.arg for x in a.args]
+    if len(set(names)) != n:
+        raise Unsupported("%s: duplicate parameter" % fn.name)
+    return names
 
 
 def _body(fn):
@@ -78,48 +83,50 @@ def _class_call(e, var, args):
 
 def gen_visit(tree):
     fn = _fn(tree, "default_visit")
-    _args(fn, ["path", "key", "value"])
+    _path, key, value = _args(fn, 3)
     body = _body(fn)
     if not (len(body) == 1 and isinstance(body[0], ast.Return) and isinstance(body[0].value, ast.Tuple)
-            and len(body[0].value.elts) == 2 and _is_name(body[0].value.elts[0], "key")
-            and _is_name(body[0].value.elts[1], "value")):
+            and len(body[0].value.elts) == 2 and _is_name(body[0].value.elts[0], key)
+            and _is_name(body[0].value.elts[1], value)):
         raise Unsupported("default_visit is not `return key, value`")
     return "Definition src_default_visit {K V : Type} (key : K) (value : V) : K * V := (key, value).\n"
 
 
-def _enter_return(body):
+def _enter_return(body, value="value"):
     if not (len(body) == 1 and isinstance(body[0], ast.Return) and isinstance(body[0].value, ast.Tuple)
             and len(body[0].value.elts) == 2):
         raise Unsupported("default_enter: branch is not a single `return a, b`")
     a, b = body[0].value.elts
-    if _is_name(a, "value") and isinstance(b, ast.Constant) and b.value is False:
+    if _is_name(a, value) and isinstance(b, ast.Constant) and b.value is False:
         return "NoTraverse"
-    if _class_call(a, "value", []) and isinstance(b, ast.Call) and not b.keywords and isinstance(b.func, ast.Name) \
-            and len(b.args) == 1 and _is_name(b.args[0], "value") and b.func.id in ("ItemsView", "enumerate"):
+    if _class_call(a, value, []) and isinstance(b, ast.Call) and not b.keywords and isinstance(b.func, ast.Name) \
+            and len(b.args) == 1 and _is_name(b.args[0], value) and b.func.id in ("ItemsView", "enumerate"):
         return "Traverse %s" % ("ItItems" if b.func.id == "ItemsView" else "ItEnumerate")
     raise Unsupported("default_enter: unknown return %s" % ast.dump(body[0].value))
 
 
 def gen_enter(tree):
     fn = _fn(tree, "default_enter")
-    _args(fn, ["path", "key", "value"])
+    _path, _key, value = _args(fn, 3)
+    if value in ABCS or value in ("ItemsView", "enumerate", "isinstance"):
+        raise Unsupported("default_enter: parameter shadows a name it uses")
     body = _body(fn)
     if len(body) != 1:
         raise Unsupported("default_enter: expected one if-chain")
     arms, orelse = _if_chain(body[0])
     out = "Definition src_default_enter (t : pyty) : enter_res :=\n"
     for test, b in arms:
-        out += "  if %s then %s else\n" % (_isinstance_test(test, "value"), _enter_return(b))
-    out += "  %s.\n" % _enter_return(orelse)
+        out += "  if %s then %s else\n" % (_isinstance_test(test, value), _enter_return(b, value))
+    out += "  %s.\n" % _enter_return(orelse, value)
     return out
 
 
-def _exit_branch(body):
+def _exit_branch(body, new_parent="new_parent", new_items="new_items", ret="ret"):
     # new_parent.update(new_items)
     if len(body) == 1 and isinstance(body[0], ast.Expr):
         c = body[0].value
         if (isinstance(c, ast.Call) and not c.keywords and isinstance(c.func, ast.Attribute) and c.func.attr == "update"
-                and _is_name(c.func.value, "new_parent") and len(c.args) == 1 and _is_name(c.args[0], "new_items")):
+                and _is_name(c.func.value, new_parent) and len(c.args) == 1 and _is_name(c.args[0], new_items)):
             return "ExUpdateItems"
     # raise RuntimeError(...)
     if len(body) == 1 and isinstance(body[0], ast.Raise) and isinstance(body[0].exc, ast.Call) \
@@ -129,22 +136,25 @@ def _exit_branch(body):
     if len(body) == 2 and isinstance(body[0], ast.Assign) and isinstance(body[1], ast.Try):
         a, t = body
         lc = a.value
-        ok = (len(a.targets) == 1 and _is_name(a.targets[0], "vals") and isinstance(lc, ast.ListComp)
-              and _is_name(lc.elt, "v") and len(lc.generators) == 1 and not lc.generators[0].ifs
-              and not lc.generators[0].is_async and _is_name(lc.generators[0].iter, "new_items")
+        ok = (len(a.targets) == 1 and isinstance(a.targets[0], ast.Name) and isinstance(lc, ast.ListComp)
+              and isinstance(lc.elt, ast.Name) and len(lc.generators) == 1 and not lc.generators[0].ifs
+              and not lc.generators[0].is_async and _is_name(lc.generators[0].iter, new_items)
               and isinstance(lc.generators[0].target, ast.Tuple) and len(lc.generators[0].target.elts) == 2
-              and _is_name(lc.generators[0].target.elts[1], "v")
-              and isinstance(lc.generators[0].target.elts[0], ast.Name) and lc.generators[0].target.elts[0].id != "v")
+              and _is_name(lc.generators[0].target.elts[1], lc.elt.id)
+              and isinstance(lc.generators[0].target.elts[0], ast.Name)
+              and lc.generators[0].target.elts[0].id != lc.elt.id)
+        vals = a.targets[0].id if ok else None
+        ok = ok and vals not in (new_parent, new_items, ret)
         ok = ok and len(t.body) == 1 and len(t.handlers) == 1 and not t.orelse and not t.finalbody
         if ok:
             c, h = t.body[0], t.handlers[0]
             ok = (isinstance(c, ast.Expr) and isinstance(c.value, ast.Call) and not c.value.keywords
-                  and isinstance(c.value.func, ast.Attribute) and _is_name(c.value.func.value, "new_parent")
+                  and isinstance(c.value.func, ast.Attribute) and _is_name(c.value.func.value, new_parent)
                   and c.value.func.attr in ("extend", "update") and len(c.value.args) == 1
-                  and _is_name(c.value.args[0], "vals")
+                  and _is_name(c.value.args[0], vals)
                   and _is_name(h.type, "AttributeError") and h.name is None and len(h.body) == 1
                   and isinstance(h.body[0], ast.Assign) and len(h.body[0].targets) == 1
-                  and _is_name(h.body[0].targets[0], "ret") and _class_call(h.body[0].value, "new_parent", ["vals"]))
+                  and _is_name(h.body[0].targets[0], ret) and _class_call(h.body[0].value, new_parent, [vals]))
             if ok:
                 return "ExTryMethod %s" % ("MExtend" if c.value.func.attr == "extend" else "MUpdate")
     raise Unsupported("default_exit: unknown branch %s" % [ast.dump(s)[:200] for s in body])
@@ -152,17 +162,20 @@ def _exit_branch(body):
 
 def gen_exit(tree):
     fn = _fn(tree, "default_exit")
-    _args(fn, ["path", "key", "old_parent", "new_parent", "new_items"])
+    _path, _key, _old, new_parent, new_items = _args(fn, 5)
     body = _body(fn)
     if not (len(body) == 3 and isinstance(body[0], ast.Assign) and len(body[0].targets) == 1
-            and _is_name(body[0].targets[0], "ret") and _is_name(body[0].value, "new_parent")
-            and isinstance(body[2], ast.Return) and _is_name(body[2].value, "ret")):
+            and isinstance(body[0].targets[0], ast.Name) and _is_name(body[0].value, new_parent)
+            and isinstance(body[2], ast.Return) and _is_name(body[2].value, body[0].targets[0].id)):
         raise Unsupported("default_exit: expected `ret = new_parent; if ...; return ret`")
+    ret = body[0].targets[0].id
+    if len({ret, new_parent, new_items}) != 3 or {ret, new_parent, new_items} & (set(ABCS) | {"isinstance"}):
+        raise Unsupported("default_exit: names clash")
     arms, orelse = _if_chain(body[1])
     out = "Definition src_default_exit (t : pyty) : exit_res :=\n"
     for test, b in arms:
-        out += "  if %s then %s else\n" % (_isinstance_test(test, "new_parent"), _exit_branch(b))
-    out += "  %s.\n" % _exit_branch(orelse)
+        out += "  if %s then %s else\n" % (_isinstance_test(test, new_parent), _exit_branch(b, new_parent, new_items, ret))
+    out += "  %s.\n" % _exit_branch(orelse, new_parent, new_items, ret)
     return out
 
 
